@@ -6,6 +6,8 @@ package client
 import (
 	"context"
 
+	"github.com/ovn-org/libovsdb/model"
+
 	"github.com/ovn-org/libovsdb/ovsdb"
 	rt "github.com/ovn-org/libovsdb/verifrt"
 	"github.com/ovn-org/libovsdb/zzverif/fix"
@@ -98,20 +100,86 @@ func VerifC18Monitor() {
 	ctx := context.Background()
 	rt.Assert(e.Cli.Connect(ctx) == nil, "C18: connect succeeds")
 	rt.Assert(e.locksFree(), "C18: Connect returns with every lock released")
+	established := rt.Choose(2) == 1
+	if established {
+		_, err := e.Cli.Monitor(ctx, e.Cli.NewMonitor(WithTable(&fix.Child4{})))
+		rt.Assert(err == nil, "C18: a first monitor is established")
+	}
 	m := c18Monitor(e, rt.Choose(c18MonitorKinds))
-	switch rt.Choose(3) {
+	switch rt.Choose(5) {
 	case 1:
 		e.Fail[m.Method] = []string{"boom"}
 	case 2:
 		e.Fail[m.Method] = []string{"unknown method"}
+	case 3: // an old server: the newer methods are unknown, and the retried older one fails
+		e.Fail[ovsdb.ConditionalMonitorSinceRPC] = []string{"unknown method"}
+		e.Fail[ovsdb.ConditionalMonitorRPC] = []string{"boom"}
+	case 4:
+		e.Fail[ovsdb.ConditionalMonitorSinceRPC] = []string{"unknown method"}
+		e.Fail[ovsdb.ConditionalMonitorRPC] = []string{"unknown method"}
+		e.Fail[ovsdb.MonitorRPC] = []string{"boom"}
 	}
-	_, _ = e.Cli.Monitor(ctx, m)
+	_, merr := e.Cli.Monitor(ctx, m)
 	rt.Reach("ran")
 	rt.Assert(e.locksFree(), "C18: Monitor returns with every lock released")
+	if established || merr == nil {
+		rt.Assert(e.readable(), "C18: with a monitor established and no set-up in progress, reads do not wait (updates are not being deferred)")
+	}
+	if established {
+		// the established monitor keeps feeding the cache
+		rt.Assert(e.Write(ovsdb.Operation{Op: ovsdb.OperationUpdate, Table: "Child", Where: vByUUID(fix.C1), Row: ovsdb.Row{"name": "renamed"}}), "C18: a foreign write is accepted")
+		rt.RunPending()
+		rt.Assert(e.mirrors("Child"), "C18: notifications of the established monitor still reach the cache after another Monitor call returned")
+	}
 	c18Call(e, ctx, rt.Choose(c18Calls))
 	rt.RunPending()
 	rt.Reach("followed")
 	rt.Assert(e.locksFree(), "C18: the call after Monitor returns with every lock released")
+}
+
+// readable: reads would not wait for the cache (isCacheConsistent).
+func (e *vEnv) readable() bool {
+	db := e.Cli.primaryDB()
+	db.cacheMutex.RLock()
+	defer db.cacheMutex.RUnlock()
+	return !db.deferUpdates
+}
+
+// VerifC18HeldRow: a reader that holds a cached row across a notification keeps the version it read: cached objects
+// are replaced, never written (the reason concurrent readers never see a row mixing two versions).
+func VerifC18HeldRow() {
+	e := newVEnv()
+	c18Seed(e)
+	ctx := context.Background()
+	rt.Assert(e.Cli.Connect(ctx) == nil, "C18: connect succeeds")
+	mon := e.Cli.NewMonitor(WithTable(&fix.Root4{}), WithTable(&fix.Child4{}))
+	mon.Method = c01Methods[rt.Choose(3)]
+	_, err := e.Cli.Monitor(ctx, mon)
+	rt.Assert(err == nil, "C18: the monitor is established")
+	held := e.Cli.Cache().Table("Root").RowsShallow()[fix.U1]
+	rt.Assert(held != nil, "C18: the row is cached")
+	before := model.Clone(held)
+	var op ovsdb.Operation
+	switch rt.Choose(4) {
+	case 0:
+		op = ovsdb.Operation{Op: ovsdb.OperationUpdate, Table: "Root", Where: vByUUID(fix.U1), Row: ovsdb.Row{"num": 9, "name": "other"}}
+	case 1:
+		op = ovsdb.Operation{Op: ovsdb.OperationMutate, Table: "Root", Where: vByUUID(fix.U1),
+			Mutations: []ovsdb.Mutation{{Column: "kids", Mutator: ovsdb.MutateOperationDelete, Value: vSet(fix.C1)}}}
+	case 2:
+		op = ovsdb.Operation{Op: ovsdb.OperationUpdate, Table: "Root", Where: vByUUID(fix.U1),
+			Row: ovsdb.Row{"byv": ovsdb.OvsMap{GoMap: map[interface{}]interface{}{"k": ovsdb.UUID{GoUUID: fix.C1}}}, "wopt": vSet(fix.C1)}}
+	case 3:
+		op = ovsdb.Operation{Op: ovsdb.OperationDelete, Table: "Root", Where: vByUUID(fix.U1)}
+	}
+	rt.Assert(e.Write(op), "C18: a foreign write is accepted")
+	rt.RunPending()
+	rt.Reach("ran")
+	rt.Assert(e.c01Mirrors(c01Mon{tables: []string{"Root", "Child"}}), "C18: the notification is applied")
+	rt.Assert(model.Equal(held, before), "C18: a cached row a reader holds is not rewritten by a later notification")
+	if now := e.Cli.Cache().Table("Root").RowsShallow()[fix.U1]; now != nil {
+		rt.Assert(!rt.Shares(now, held), "C18: the new version of a row shares no memory with the version readers may hold")
+	}
 }
 
 // VerifC18Calls: two API calls in a row on a connected client with one monitor, any of the RPCs possibly failing.
